@@ -641,6 +641,16 @@ func (c *Ctx) checkSizeQuery(q *ssa.Function, reach map[*ssa.Function]bool) {
 		loads := false
 		tsize, bsizes := false, false
 		var lastErrFromLoad bool
+		// a path answers from recorded sizes only if the look-ups it went through succeeded: every branch on an error
+		// value along it took the nil edge (an inverted test would make the recorded-size code unreachable in practice)
+		errBranchFailed := false
+		for pi := 0; pi+1 < len(path); pi++ {
+			if cond, taken, ok := core.BranchTaken(path[pi], path[pi+1]); ok {
+				if x, trueMeansNil, isNil := core.NilCmp(cond); isNil && core.IsErrorType(x.Type()) && taken != trueMeansNil {
+					errBranchFailed = true
+				}
+			}
+		}
 		for _, b := range path {
 			for _, ins := range b.Instrs {
 				if loadReaching[ins] {
@@ -693,7 +703,7 @@ func (c *Ctx) checkSizeQuery(q *ssa.Function, reach map[*ssa.Function]bool) {
 							// must not be an unconditional error: accept only Extracts of non-loading calls
 						}
 					}
-					if !loads {
+					if !loads && !errBranchFailed {
 						if tsize {
 							viaTsize = true
 						}
